@@ -55,13 +55,13 @@ Proof.
   { pose proof (Z.gcd_nonneg n (Zpos d)). destruct (Z.eq_dec g 0) as [E|]; [|lia].
     apply Z.gcd_eq_0_r in E. lia. }
   destruct (Z.gcd_divide_l n (Zpos d)) as [a Ha]. destruct (Z.gcd_divide_r n (Zpos d)) as [b Hb].
-  fold g in Ha, Hb.
+  fold g in Ha, Hb. clearbody g.
   assert (Ea : (n / g = a)%Z) by (rewrite Ha; apply Z.div_mul; lia).
   assert (Eb : (Zpos d / g = b)%Z) by (rewrite Hb; apply Z.div_mul; lia).
   rewrite Ea, Eb.
   assert (Hbpos : (0 < b)%Z) by nia.
   rewrite Z2Pos.id by exact Hbpos.
-  rewrite Ha, Hb at 2. rewrite !mult_IZR.
+  rewrite Ha, Hb. rewrite !mult_IZR.
   assert (IZR g <> 0) by (apply not_0_IZR; lia).
   assert (IZR b <> 0) by (apply not_0_IZR; lia).
   field. split; assumption.
